@@ -490,7 +490,8 @@ func (self *PathNode) handleChild(in *[]PathNode, lp *int, cp *int, p *binary.Bi
 
 	if tt.IsComplex() {
 		if recurse {
-			p.Buf = p.Buf[start:]
+			// the children end where this node ends, not where the parent's buffer ends
+			p.Buf = p.Buf[start:p.Read]
 			p.Read = 0
 			parentDesc := desc
 			messageLen := 0
